@@ -264,14 +264,20 @@ CLAIMS = {
             "commands, bad arguments, injected snippets, hardware within its domain).",
             "Trusted: virtual time (engine.tick called directly, NullTimer), instrumented UOD + recording hardware, node-flag recorder; requests are applied between ticks. The RunState behaviours are input schedules, the verdict is the monitor's named clauses on the observed state. Malformed-text classes are extended with the interpreter corpus.", "7 C13"),
     "C10": (MC, "TLA+ design spec Commands.tla (NoInstanceAfterStop etc.; TLC) + monitor CommandsTrace.tla on the engine corpus: "
-                "clean-up clauses evaluated whenever a run ends (Stop, method Stop, Restart)",
+                "clean-up clauses evaluated whenever a run ends (Stop, method Stop, Restart); tick-exact design spec CmdMgr.tla "
+                "(structured like CommandManager: front insertion, per-tick done set, by-name instance lookup, two-phase Stop/Restart "
+                "with manager replacement; TLC over all request sequences; the spec of the code before fix e60c335a violates it) in "
+                "lock-step conformance with the real engine (CmdMgrLockTrace.tla: acceptance, run state, instance table, executing "
+                "list and the exact order of init/exec/finalize calls compared after every tick)",
             "Corpus runs stop/restart at arbitrary ticks with long-running, overlapping and failing UOD commands, timed Pause/Hold and "
             "Simulate: at run end no UOD instance is left, no tag is simulated, the run id is cleared, the run-stopped message "
             "(built by the real EngineMessageBuilder in on_stop) can be produced and closes every UOD command that started; a new "
             "run starts from line 1.",
             "Trusted: virtual time, instrumented UOD (init/exec/finalize logged with instance ids), recording hardware, node-flag recorder; requests applied between ticks.", "6.3, 7 C10"),
     "C11": (MC, "Commands.tla invariants NoTwoConflictingExecuting / InitOnceBeforeExec / FinalizeExactlyOnce (TLC, all request / "
-                "exec / cancel / stop interleavings of 3 commands) + monitor CommandsTrace.tla on the UOD call log of the corpus",
+                "exec / cancel / stop interleavings of 3 commands) + monitor CommandsTrace.tla on the UOD call log of the corpus + "
+                "CmdMgr.tla (HookOrder, NoOverlapTogether, NoOrphanInstance; TLC) in lock-step with the real command manager: the "
+                "sequence of init/exec/finalize calls of every tick must equal the model's",
             "Per tick no two instances of one command and no two overlapping commands execute; init once before the first exec; "
             "no exec after finalize; finalize once and only after init; everything initialized is finalized when the run ends.",
             "Trusted: virtual time, instrumented UOD (init/exec/finalize logged with instance ids), recording hardware, node-flag recorder; requests applied between ticks.", "6.3, 7 C11"),
